@@ -310,7 +310,21 @@ class C02(EvalProp):
     def extra_cases(self):
         doc = ("a", ("a", ("i", 1), ("i", 2)), ("a", ("i", 3), ("i", 4)))
         q = ("q", ("sel", "wild"), ("sels", ("idx", 0), ("idx", 1)))
-        return [Case("w", "EVAL", [q, doc], {"witness": "D1"}, impl=("E2E", [S("$[*][0,1]"), doc]))]
+        out = [Case("w", "EVAL", [q, doc], {"witness": "D1"}, impl=("E2E", [S("$[*][0,1]"), doc]))]
+        # every ordered pair of selectors in one bracketed selection applied to ONE node (no D1 involved): the
+        # contributions must follow each other in the order written, duplicates kept
+        pool = [("idx", i) for i in (-2, -1, 0, 1, 2, 3)] + ["wild"] + \
+               [("slice", a, b, c) for a in (None, 0, 1, 3, -1) for b in (None, 0, 1, 3, -1) for c in (None, 1, 2, -1)]
+        arr = ("a",) + tuple(("a", ("i", i)) for i in range(5))
+        nested = o_(k=arr)
+        for x in pool:
+            for y in pool:
+                out.append(self.make_case("u", ("q", ("sels", x, y)), arr, {"table": "union-pair"}))
+        for k in range(1500):
+            x, y, z = (self.rng.choice(pool) for _ in range(3))
+            tail = self.rng.choice([(), (("sel", ("idx", 0)),), (("sel", "wild"),)])
+            out.append(self.make_case("u", ("q", ("sel", ("name", S("k"))), ("sels", x, y, z)) + tail, nested, {"table": "union-triple"}))
+        return out
 
 
 class C03(EvalProp):
